@@ -206,3 +206,154 @@ func VerifC17_loop_commands() {
 }
 
 var _ = common.DefaultCapacityDivider
+
+// The same commands in a run through the real New (nothing of the discipline's representation is
+// built or read by the harness: only channel traffic and the return of main are observed), so the
+// check stays meaningful for a change that re-organises the internal bookkeeping.
+// gosym: mode=int
+func VerifC17_v1_run() {
+	n := vParam("n", 2)
+	H := uint(vParam("H", 2))
+	J := vParam("J", 1)
+	C := vParam("C", 2)
+	e := &vEnv{n: n, faultAt: -1, H: H, honest: true}
+	vE = e
+	all := make([]uint, 0, n+1)
+	for i := 0; i < n+1; i++ {
+		all = append(all, vNondetUint("p"))
+	}
+	vDistinct(all...)
+	for i := 1; i < n; i++ {
+		vAssume(all[i-1] > all[i])
+	}
+	e.ps, e.foreign = all[:n], all[n]
+	e.removed = make([]bool, n)
+	closed := make([]bool, n)
+	inputs := map[uint]<-chan int{}
+	for i := 0; i < n; i++ {
+		ch := make(chan int, J+1)
+		e.ins = append(e.ins, ch)
+		inputs[e.ps[i]] = ch
+		for k := vChoose("items", J+1); k > 0; k-- {
+			ch <- vNondetInt("item")
+		}
+		if vChoose("closed", 2) == 1 {
+			close(ch)
+			closed[i] = true
+		}
+	}
+	e.fb = make(chan uint, 1)
+	e.out = make(chan Prioritized[int], 1)
+	d, err := New(Opts[int]{Divider: FairDivider, Feedback: e.fb, HandlersQuantity: H, Inputs: inputs, Output: e.out})
+	vAssume(err == nil)
+	e.d = d
+	e.G = make([]uint, n)
+	vSink(e.out)
+	e.monitors()
+	watchOld := func(ch chan int, what string) {
+		vOnRecv(ch, func(v any, ok bool) {
+			vAssert(false, "C17: "+what)
+		})
+	}
+	// callers of AddInput / RemoveInput: each call is made at the start or right after some later hand-out
+	// (any moment, as far as the discipline can tell) and blocks on the command channel until it is taken
+	type cmd struct {
+		add bool
+		k   int
+		ch  chan int
+	}
+	var cmds []cmd
+	for c := 0; c < C; c++ {
+		k := vChoose("target", n)
+		switch vChoose("cmd", 3) {
+		case 1: // add / replace / re-add: a channel that is already closed, with or without an item
+			ch := make(chan int, 2)
+			if vChoose("with-item", 2) == 1 {
+				ch <- vNondetInt("item")
+			}
+			close(ch)
+			cmds = append(cmds, cmd{add: true, k: k, ch: ch})
+		case 2:
+			cmds = append(cmds, cmd{k: k})
+		}
+	}
+	next := 0
+	issue := func() {
+		for next < len(cmds) && vChoose("call-now", 2) == 1 {
+			c := cmds[next]
+			next++
+			if c.add {
+				vPark(d.inputAdds, inputAdd[int]{channel: c.ch, priority: e.ps[c.k]})
+				e.pendingAdds = append(e.pendingAdds, vPendingAdd{idx: c.k, ch: c.ch, old: nil})
+			} else {
+				vPark(d.inputRmvs, e.ps[c.k])
+				e.pendingRmvs = append(e.pendingRmvs, c.k)
+			}
+		}
+	}
+	issue()
+	e.afterSend = issue
+	vOnRecv(d.inputAdds, func(v any, ok bool) {
+		if !ok || len(e.pendingAdds) == 0 {
+			return
+		}
+		a := e.pendingAdds[0]
+		e.pendingAdds = e.pendingAdds[1:]
+		if !e.removed[a.idx] {
+			watchOld(e.ins[a.idx], "after AddInput returned the channel previously registered for the priority is never read again")
+		}
+		e.ins[a.idx] = a.ch
+		e.removed[a.idx] = false
+		closed[a.idx] = true
+		idx := a.idx
+		vOnRecv(a.ch, func(v any, ok bool) {
+			vAssert(!e.pending, "C02: an item read from an input is written out before anything else is read")
+			if ok {
+				e.recvs++
+				e.pending = true
+				e.pendingItem = v.(int)
+				e.pendingIdx = idx
+			}
+		})
+	})
+	vOnRecv(d.inputRmvs, func(v any, ok bool) {
+		if !ok || len(e.pendingRmvs) == 0 {
+			return
+		}
+		k := e.pendingRmvs[0]
+		e.pendingRmvs = e.pendingRmvs[1:]
+		if !e.removed[k] {
+			e.removed[k] = true
+			watchOld(e.ins[k], "after RemoveInput returned the discipline never again reads from that channel")
+		}
+	})
+	vOnBlock(e.fb, func() {
+		if vSumAssert("in flight", e.G...) == 0 {
+			vDecline()
+			return
+		}
+		i := vChoose("release", e.n)
+		vAssume(e.G[i] >= 1)
+		e.fb <- e.ps[i]
+	})
+	vBreakSignal(d.graceful) // GracefulStop() has been called; it returns when main completes
+	vTickBudget(4)
+	vFairTicks()
+	vSleepBudget(vParam("K", 3))
+	vExpect("HORIZON", "ok") // some registered input stays open: GracefulStop does not return (documented)
+	vExpect("TICK-HORIZON", "ok")
+	vExpect("BLOCKED", "fail:C06/C07/C17: the discipline waits for a release although nothing is in flight (accounting lost across AddInput / RemoveInput)")
+	vTermWatch(d.err)
+	vRunSpawned(0)
+	vRunLeftoverSpawned()
+	vReach("returned")
+	g := vSumAssert("in flight at return", e.G...)
+	vAssert(g == 0, "C07/C17: GracefulStop returns only after every delivered item was released")
+	for i := range e.ps {
+		if !e.removed[i] {
+			vAssert(closed[i], "C07/C17: GracefulStop returns only when every input that is still registered has been closed")
+			vAssert(len(e.ins[i]) == 0, "C02/C07/C17: GracefulStop returns only when every input that is still registered has been emptied (nothing written before the close is lost)")
+		}
+	}
+	vAssert(vAnd(vIsClosed(d.err), len(d.err) == 0), "C07: normal termination closes err without an error value")
+}
